@@ -3148,7 +3148,16 @@ class StateEngine(object):
                     event["data"] = merge_result(data, context, result, state)
 
                     if state.get("End"):
+                        """
+                        In a Branch or Iterator the terminal state's result
+                        is collected for the join, which doesn't hold (and
+                        later acknowledge) the event of a Map state, so as
+                        for a Map with items it is acknowledged here.
+                        """
+                        in_branch = "Branch" in context["State"]
                         handle_terminal_state(state_type, event, id)
+                        if in_branch:
+                            self.event_dispatcher.acknowledge(id)
                     else:
                         error_type, error_message = self.change_state(
                             state_machine, state_type, state.get("Next"), event
